@@ -332,7 +332,9 @@ Definition clean_def (gd : gitemdef) : bool :=
   end.
 Definition clean_module (m : smodule) : bool :=
   forallb clean_path (module_scope m) &&
-  forallb (fun kb => forallb clean_fn (gb_fns (snd kb))) (m_impls m).
+  forallb (fun kb => forallb clean_fn (gb_fns (snd kb))) (m_impls m) &&
+  (forallb (fun kb => clean_path (fst kb)) (m_impls m) &&
+   forallb (fun ev => clean_gtype (ev_gtype ev)) (m_extern_values m)).
 
 Section Pre.
   Variable R0 R : registry.
@@ -435,7 +437,8 @@ Qed.
 
 (** ** the state-changing part: the vftable item *)
 Definition mod_eq (m m' : smodule) : Prop :=
-  m_path m = m_path m' /\ m_ast m = m_ast m' /\ m_impls m = m_impls m'.
+  m_path m = m_path m' /\ m_ast m = m_ast m' /\ m_impls m = m_impls m' /\
+  m_extern_values m = m_extern_values m'.
 Definition mods_agree (ms ms' : list (path * smodule)) : Prop :=
   forall k, match alookup k ms, alookup k ms' with
             | Some m, Some m' => mod_eq m m'
@@ -469,7 +472,7 @@ Proof.
   - split; [exact Hp|]. intros p itp Hup Hg Hr.
     assert (it_path it <> p) as Hne by (intros E; subst p; contradiction).
     rewrite reg_get_add_other in * by exact Hne. auto.
-  - apply mods_agree_insert; [exact Hm|]. destruct Hmp as (A & B & C). repeat split; assumption.
+  - apply mods_agree_insert; [exact Hm|]. destruct Hmp as (A & B & C & D). repeat split; assumption.
 Qed.
 
 Lemma opt_rnv_shape R fb :
@@ -700,9 +703,10 @@ Section St.
     specialize (Hm parent) as Hmp. specialize (Hcm parent).
     destruct (alookup parent (st_modules st)) as [module|] eqn:Emod,
              (alookup parent (st_modules st')) as [module'|] eqn:Emod'; try contradiction; [|exact H].
-    destruct Hmp as (Hmpath & Hmast & Hmimpls).
+    destruct Hmp as (Hmpath & Hmast & Hmimpls & Hmevs).
     assert (module_scope module' = module_scope module) as Hscope by (unfold module_scope; congruence).
-    specialize (Hcm module eq_refl eq_refl). unfold clean_module in Hcm. apply andb_prop in Hcm as [Hcs Hci].
+    specialize (Hcm module eq_refl eq_refl). unfold clean_module in Hcm. apply andb_prop in Hcm as [Hcm _].
+    apply andb_prop in Hcm as [Hcs Hci].
     rewrite Hscope, <- Hmimpls.
     rewrite (process_statements_reach R0 (st_reg st') HC' _ Hcs _ _ Hcd).
     rewrite (process_statements_reach R0 (st_reg st) HC _ Hcs _ _ Hcd) in H.
@@ -759,9 +763,10 @@ Section St.
     specialize (Hm parent) as Hmp. specialize (Hcm parent).
     destruct (alookup parent (st_modules st)) as [module|] eqn:Emod,
              (alookup parent (st_modules st')) as [module'|] eqn:Emod'; try contradiction; [|exact H].
-    destruct Hmp as (Hmpath & Hmast & Hmimpls).
+    destruct Hmp as (Hmpath & Hmast & Hmimpls & Hmevs).
     assert (module_scope module' = module_scope module) as Hscope by (unfold module_scope; congruence).
-    specialize (Hcm module eq_refl eq_refl). unfold clean_module in Hcm. apply andb_prop in Hcm as [Hcs _].
+    specialize (Hcm module eq_refl eq_refl). unfold clean_module in Hcm. apply andb_prop in Hcm as [Hcm _].
+    apply andb_prop in Hcm as [Hcs _].
     rewrite Hscope. rewrite (resolve_gtype_reach R0 _ _ HC' Hcs _ Hcd).
     rewrite (resolve_gtype_reach R0 _ _ HC Hcs _ Hcd) in H.
     destruct (resolve_gtype R0 (module_scope module) (ged_type d)) as [ty|] eqn:Et; [|congruence].
